@@ -81,6 +81,7 @@ pub fn show(v: &JsValue) -> String {
         JsValue::Number(n) => shownum(*n),
         JsValue::String(s) => format!("s:{}", s.as_str()),
         JsValue::Symbol(_) => "symbol".into(),
+        JsValue::Object(o) if o.borrow().is_callable() => "fn".into(),
         JsValue::Object(_) => {
             match tsrun::js_value_to_json(v) {
                 Ok(j) => format!("o:{}", j),
